@@ -16,8 +16,17 @@ Tie (8 virtual CPU devices):
        _unstack_m/_stack_m, clip mask, inverse Laplacian factors, padded bases, padded transforms;
  (iii) sentinel differential (the property itself): every op sharded vs unsharded on (z,x,y) meshes.
 
-PARTIAL by design: XLA's SPMD partitioner, shard_map, the collectives and with_sharding_constraint are
-executed by (i) and (iii), not modelled.
+ (iv)  (rev. B) the collectives on 2-D blocks of unsharded matrices (model: rowChunk / colChunk / splitEvery, Lean:
+       allgatherMatmul_unsharded / matmulReducescatter_unsharded); the string / index logic of sharded_einsum
+       (props/c07_einsum.py, model Dino/ShardEinsum.lean) on every pattern the transforms use and on a malformed
+       stream; 6-device meshes and vertical-only meshes on 3, 5, 7 devices in the differential; meshes with an odd
+       x / y axis must be rejected with ValueError (part_odd_rejected); the first-padding-column artifact of the raw
+       latitude derivatives is asserted to be confined and never to reach resolved values (RAW_OPS); one whole
+       filtered IMEX step per quick run.
+
+PARTIAL by design: XLA's SPMD partitioner, shard_map, the collectives, jnp.einsum / jax.eval_shape and
+with_sharding_constraint are executed by (i) and (iii), not modelled; the sharded implicit operators, filters and whole
+steps are covered by the differential only.
 """
 import dataclasses
 import functools
@@ -29,11 +38,18 @@ import numpy as np
 import common
 from common import fvec, fmat, fbits, unfvec, unfmat, unfbits, ivec, univec
 import dinoutil
+from props import c07_einsum
+
+# the model files added by the rev.-B repair (block decomposition, sharded_einsum string logic, checked derivative):
+# the probes that need the new driver operations are skipped until those files are merged into lean/
+HAVE_NEW = os.path.exists(os.path.join(common.LEAN, 'Dino', 'ShardEinsum.lean'))
 
 TOL = 1e-10
 NDEV = 8
-RULE = ('meshes: all 20 (z,x,y) factorisations of 1,2,4,8 devices (quick: a seed-rotated subset of the '
-        'multi-axis ones, every single-axis and the 2x2x2 one always); grids with_wavenumbers(4..6) in the '
+RULE = ('meshes: all 20 (z,x,y) factorisations of 1,2,4,8 devices, the 5 factorisations of 6 devices with x, y in {1, even} '
+        'and the vertical-only meshes on 3, 5, 7 devices (quick: a seed-rotated subset of the multi-axis ones, every '
+        'single-axis power-of-two mesh, 2x2x2 and all five 6-device meshes always); every mesh with an odd x or y axis '
+        '> 1 must be rejected with ValueError; grids with_wavenumbers(4..6) in the '
         'FastSphericalHarmonics layout, base_shape_multiple in {default 8, 1, 2, 3}, both einsum argument '
         'orders, stacked and unstacked Fourier step, gather and scatter strategy; level counts 1, 3, 5 '
         '(not divisible by z) for Grid ops, multiples of z with equidistant and uneven sigma for '
@@ -51,6 +67,14 @@ def all_meshes():
           if z * x * y == n:
             out.append((z, x, y))
   return out
+
+
+# 6 of the 8 virtual devices: every (z,x,y) with z*x*y = 6 whose x and y are 1 or even
+MESHES6 = [(6, 1, 1), (3, 2, 1), (3, 1, 2), (1, 6, 1), (1, 1, 6)]
+# the vertical axis may have any size (no two-way collective runs over z)
+MESHES_ZODD = [(3, 1, 1), (5, 1, 1), (7, 1, 1)]
+# an odd x or y axis > 1 is outside the domain: the transforms must raise ValueError('axis_size must be 1 or even')
+MESHES_ODD_XY = [(1, 3, 1), (1, 1, 3), (2, 3, 1), (2, 1, 3), (1, 3, 2), (1, 2, 3), (1, 5, 1), (1, 1, 5), (1, 7, 1), (1, 1, 7)]
 
 
 def mesh_key(m):
@@ -273,6 +297,34 @@ def part_corr(ctx, env):
           ctx.expect(dinoutil.relerr(out, lhs @ rhs) < TOL, f'reducescatter-matmul:n={n}',
                      'reduce-scatter matmul != lhs @ rhs', inp)
 
+  # --- the collectives on 2-D operands (chunk sizes > 1): blocks of unsharded matrices A (n r x n k), B (n k x w)
+  if HAVE_NEW:
+    for n in (1, 2, 4, 6, 8):
+      mesh = env.mesh1(n)
+      for rep in range(ctx.n(1, 3)):
+        k, r, w = (int(v) for v in rng.integers(1, 4, 3))
+        rev = bool(rng.integers(0, 2))
+        A = rng.standard_normal((n * r, n * k))
+        B = rng.standard_normal((n * k, w))
+        inp = dict(n=n, k=k, r=r, w=w, A=A.tolist(), B=B.tolist(), reverse_arg_order=rev)
+        ctx.case(('agmat', n, k, r, w, A.tobytes(), B.tobytes(), rev), nontrivial=n > 1)
+        ctx.dist[f'matrix-collectives:n={n}'] += 1
+        with ctx.impl('collective-exception', inp):
+          f = functools.partial(jnu._allgather_matmul_twoway, 'ik,kj->ij', split_axis=1, axis_name='x',
+                                reverse_arg_order=rev, precision='float32')
+          g = env.shard_map(f, mesh=mesh, in_specs=(P('x', None), P('x', None)), out_specs=P('x', None), check_rep=False)
+          out = np.asarray(jax.jit(g)(jnp.asarray(A), jnp.asarray(B)))
+          add(f'shard F agmat {n} {k} {r} {w} {fmat(A)} {fmat(B)}', '_allgather_matmul_twoway [matrix blocks]', inp, out, 'devmats')
+          ctx.expect(dinoutil.relerr(out, A @ B) < TOL, f'allgather-matmul:n={n}',
+                     'all-gather matmul on matrix blocks != rows of A @ B', inp)
+          f = functools.partial(jnu._matmul_reducescatter_twoway, 'ik,kj->ij', scatter_axis=0, axis_name='x',
+                                reverse_arg_order=rev, precision='float32')
+          g = env.shard_map(f, mesh=mesh, in_specs=(P(None, 'x'), P('x', None)), out_specs=P('x', None), check_rep=False)
+          out = np.asarray(jax.jit(g)(jnp.asarray(A), jnp.asarray(B)))
+          add(f'shard F rsmat {n} {k} {r} {w} {fmat(A)} {fmat(B)}', '_matmul_reducescatter_twoway [matrix blocks]', inp, out, 'devmats')
+          ctx.expect(dinoutil.relerr(out, A @ B) < TOL, f'reducescatter-matmul:n={n}',
+                     'reduce-scatter matmul on matrix blocks != rows of A @ B', inp)
+
   # --- ppermute tables
   for n in (1, 2, 4, 6, 8):
     add(f'shard permfwd {n}', 'perm_fwd', dict(n=n), [(j + 1) % n for j in range(n)], 'ivec')
@@ -328,6 +380,19 @@ def part_corr(ctx, env):
            (5, 0), (0, 0), (12, 32), (64, 128)]
   for _ in range(ctx.n(60, 600)):
     cases.append((int(rng.integers(0, 400)), int(rng.choice([1, 2, 3, 4, 6, 8, 16, 24, 32, 64, 128, 7, 0]))))
+  if HAVE_NEW:
+    # the model is the exact integer ceiling; Python divides in binary64: equal for x < 2^53 (Lean:
+    # roundToMultiple_float_agrees), so the correspondence is run up to that bound
+    cases += [(2 ** 53 - 1, 1), (2 ** 53 - 1, 2), (2 ** 53 - 2, 2 ** 52 - 1), (2 ** 52 + 1, 2 ** 26), (2 ** 53 - 1, 2 ** 53 - 1),
+              (2 ** 53 - 1, 3), (10 ** 15 + 1, 10 ** 15), (10 ** 15 + 1, 7)]
+    for _ in range(ctx.n(40, 400)):
+      e = int(rng.integers(20, 53))
+      xv = int(rng.integers(2 ** (e - 1), 2 ** e))
+      mv = int(rng.choice([1, 2, 3, 7, 8, 96, 2 ** 20 + 1, max(1, xv // 3), max(1, xv - 1), xv, xv + 1]))
+      cases.append((xv, mv))
+    # beyond the bound the code itself is no longer the least multiple >= x (domain note, not compared)
+    big = sh._round_to_multiple(2 ** 53 + 1, 1)
+    ctx.dist['rtm:beyond-2^53 float quotient loses the last bit'] += int(big != 2 ** 53 + 1)
   for (xv, mv) in cases:
     try:
       impl = str(sh._round_to_multiple(xv, mv))
@@ -342,7 +407,7 @@ def part_corr(ctx, env):
                  f'_round_to_multiple({xv},{mv})={r} is not the least multiple >= x', dict(x=xv, multiple=mv))
 
   # --- padded shapes, paddings, default base
-  meshes = [None] + all_meshes()
+  meshes = [None] + all_meshes() + MESHES6 + MESHES_ZODD + MESHES_ODD_XY[:6]
   shape_cases = []
   for mk in meshes:
     for base in (None, 0, 1, 2, 3, 8):
@@ -389,8 +454,9 @@ def part_corr(ctx, env):
 
   # --- frequency offsets, per-shard derivative, stack/unstack, masks on real padded grids
   grid_cases = [((1, 2, 1), None), ((1, 4, 1), None), ((1, 8, 1), None), ((1, 2, 2), 1), ((1, 4, 2), 3), ((2, 2, 1), 2)]
+  grid_cases += [((1, 6, 1), 1)]
   if not ctx.quick:
-    grid_cases += [((1, 2, 4), 1), ((1, 8, 1), 1), ((2, 4, 1), 3)]
+    grid_cases += [((1, 2, 4), 1), ((1, 8, 1), 1), ((2, 4, 1), 3), ((1, 6, 1), None), ((3, 2, 1), 2)]
   for (mk, base) in grid_cases:
     M = int(rng.choice([4, 5, 6]))
     g0 = env.grid(M)
@@ -420,6 +486,24 @@ def part_corr(ctx, env):
       add(f'shard F clipmask {Lp} {nclip} {g.modal_padding[1]}', 'clip_wavenumbers mask', dict(inp, n=nclip), mask, 'vec')
     inv = np.asarray(g.inverse_laplacian(jnp.ones(g.modal_shape)))[0]
     add(f'shard F inveig {g.total_wavenumbers} {fvec(g.laplacian_eigenvalues)}', 'inverse_laplacian factors', inp, inv, 'vec')
+
+  # --- an odd number of modal rows: fourier.real_basis_derivative_with_zero_imag raises ValueError, and so does the
+  #     model of the per-shard call (padded_shapes never produces such shards: T7.7)
+  if HAVE_NEW:
+    for (rows, srows) in ((3, 3), (6, 3), (5, 5), (4, 2), (10, 5)):
+      x = rng.standard_normal((rows, 2))
+      res = []
+      for a in range(rows // srows):
+        try:
+          np.asarray(env.fourier.real_basis_derivative_with_zero_imag(jnp.asarray(x[a * srows:(a + 1) * srows]), -2, srows // 2 * a))
+          res.append('ok')
+        except ValueError:
+          res.append('value-error')
+      impl = 'value-error' if 'value-error' in res else 'ok'
+      ctx.case(('dlon-odd', rows, srows), nontrivial=True)
+      ctx.dist[f'rows:odd-shard-rows {impl}'] += 1
+      lines.append(f'shard F dlon {srows} 2 {fmat(x)}')
+      checks.append(('real_basis_derivative_with_zero_imag [odd rows rejected]', dict(rows=rows, shard_rows=srows), impl, 'errtag'))
 
   # --- zero-padded bases and the padded transforms (small grids: everything travels on the wire)
   basis_cases = [(3, None, 2, False), (3, (1, 2, 1), 1, False), (3, (1, 1, 2), 2, True), (4, (1, 2, 2), 1, True)]
@@ -464,6 +548,13 @@ def part_corr(ctx, env):
       continue
     if kind == 'str':
       ctx.corr_exact(op, inp, impl, o)
+    elif kind == 'errtag':
+      ctx.corr_exact(op, inp, impl, o if o == 'value-error' else 'ok')
+    elif kind == 'devmats':
+      if o == 'value-error':
+        ctx.corr_mismatch(op, inp, 'runs', o, 'model raised')
+      else:
+        ctx.corr_float(op, inp, np.asarray(impl), np.concatenate([np.asarray(unfmat(t)) for t in o.split('|')], axis=0))
     elif kind == 'ivec':
       ctx.corr_exact(op, inp, [int(v) for v in impl], univec(o) if o not in ('value-error', 'zero-division') else o)
     elif o in ('value-error', 'zero-division'):
@@ -504,11 +595,33 @@ def tree_err(env, out, ref, shape2_for):
   return worst, mass, finite
 
 
-# `_derivative_recurrence_weights` zeroes `b[:, -1]`, the last column of the *padded* layout, so on a padded
-# layout the raw (unclipped) latitude derivatives write the "numerical artifact in the highest wavenumber"
-# into the first padding column; resolved values are unaffected and every consumer (clip_wavenumbers,
-# to_nodal, a = 0 on the padding) ignores it.  For these ops only the resolved block is compared.
-RAW_OPS = ('cos_lat_d_dlat', 'sec_lat_d_dlat_cos2', 'dlat_chain', 'dlat_then_laplacian')
+# DOMAIN STATEMENT (padding column of the raw latitude derivatives).  `_derivative_recurrence_weights` zeroes `b[:, -1]`,
+# the last column of the *padded* layout, so on a layout whose total-wavenumber axis is padded the raw (unclipped)
+# `cos_lat_d_dlat` / `sec_lat_d_dlat_cos2` (and compositions that keep that column: a second raw derivative, d_dlon)
+# write `-(l) b[l] x[l]` of the last resolved wavenumber into the FIRST padding column, where "padded = pad(unpadded)"
+# would have 0.  This is asserted, not merely counted, to be harmless:
+#   * the deviation is confined to that one column (rows of the resolved block): everything else on the padding is 0;
+#   * the resolved block agrees with the unpadded layout (err <= TOL);
+#   * it never reaches resolved coefficients: a = b = 0 on the padding, the padded Legendre basis, the Laplacian
+#     eigenvalues and the inverse-Laplacian factors are 0 there, clip_wavenumbers zeroes it -- every consumer below
+#     (clip, to_nodal, to_modal(to_nodal), laplacian, inverse_laplacian, a second derivative followed by clip) is compared
+#     with the unpadded layout INCLUDING "padding exactly zero".
+RAW_OPS = ('cos_lat_d_dlat', 'sec_lat_d_dlat_cos2', 'dlat_chain', 'dlat_then_dlon')
+
+
+def artifact_split(out, ref):
+  """(largest |entry| of `out` in the first padding column next to the resolved block, largest |entry| anywhere else
+  outside the resolved block), both relative to the scale of `ref`; `out` and `ref` are single arrays."""
+  o = np.abs(np.asarray(out, dtype=float)).copy()
+  r = np.asarray(ref, dtype=float)
+  R0, L0 = r.shape[-2:]
+  scale = max(float(np.abs(r).max()) if r.size else 0.0, 1e-300)
+  o[..., :R0, :L0] = 0
+  col = 0.0
+  if o.shape[-1] > L0:
+    col = float(o[..., :R0, L0].max()) if o[..., :R0, L0].size else 0.0
+    o[..., :R0, L0] = 0
+  return col / scale, (float(o.max()) if o.size else 0.0) / scale
 
 
 def grid_bundle(env, g):
@@ -526,7 +639,14 @@ def grid_bundle(env, g):
         # the raw latitude derivatives leave an artifact in the first padding column (see RAW_OPS): every
         # consumer must ignore it
         dlat_then_nodal=g.to_nodal(g.cos_lat_d_dlat(xm)), dlat_chain=g.sec_lat_d_dlat_cos2(g.cos_lat_d_dlat(xm)),
-        dlat_then_laplacian=g.laplacian(g.sec_lat_d_dlat_cos2(xm)),
+        dlat_then_laplacian=g.laplacian(g.sec_lat_d_dlat_cos2(xm)), dlat_then_dlon=g.d_dlon(g.cos_lat_d_dlat(xm)),
+        dlat_then_clip=g.clip_wavenumbers(g.cos_lat_d_dlat(xm)), dlat2_then_clip=g.clip_wavenumbers(g.sec_lat_d_dlat_cos2(xm)),
+        dlat2_then_nodal=g.to_nodal(g.sec_lat_d_dlat_cos2(xm)),
+        dlat_roundtrip=g.to_modal(g.to_nodal(g.cos_lat_d_dlat(xm))),
+        dlat_then_inverse_laplacian=g.inverse_laplacian(g.cos_lat_d_dlat(xm)),
+        dlat_chain_then_clip=g.clip_wavenumbers(g.sec_lat_d_dlat_cos2(g.cos_lat_d_dlat(xm))),
+        dlat_chain_then_nodal=g.to_nodal(g.d_dlon(g.sec_lat_d_dlat_cos2(g.cos_lat_d_dlat(xm)))),
+        dlat_masked=g.mask * g.cos_lat_d_dlat(xm),
         # garbage on the padding must not reach resolved values
         to_nodal_garbage=g.to_nodal(xg), to_modal_garbage=g.to_modal(ng))
     return out
@@ -577,8 +697,16 @@ def part_grid_ops(ctx, env, meshes, toggles_for):
           ctx.expect(finite, f'nonfinite:{rname}', f'{name} returns non-finite values on mesh {mk}', inp)
           ctx.expect(err <= TOL, f'diff:{rname}', f'{name} on mesh {mk} differs from unsharded by {err:.3e}', inp)
           if name in RAW_OPS:
-            if mass > TOL:
-              ctx.dist[f'raw-derivative-artifact-in-padding:{name}'] += 1
+            # resolved block already asserted equal (err <= TOL above); the deviation from pad(unpadded) must be
+            # confined to the first padding column
+            col, elsewhere = artifact_split(out[name], ref[name])
+            if col > TOL:
+              ctx.dist[f'raw-derivative-artifact-in-first-padding-column:{name}'] += 1
+            ctx.expect(elsewhere <= TOL, f'padding-nonzero:{rname}',
+                       f'{name} on mesh {mk} writes {elsewhere:.3e} (relative) into the padding outside the first padding '
+                       'column', inp)
+            ctx.expect(col <= TOL or g.modal_padding[1] > 0, f'padding-nonzero:{rname}',
+                       f'{name} on mesh {mk}: artifact column without a padded total-wavenumber axis', inp)
             continue
           ctx.expect(mass <= TOL, f'padding-nonzero:{rname}',
                      f'{name} on mesh {mk} writes {mass:.3e} (relative) into the padding', inp)
@@ -704,6 +832,18 @@ def part_cumsum_einsum(ctx, env, meshes):
                      reverse_arg_order=rev, seed=ctx.seed)
           ctx.case(('einsum', mk, sub, gather, rev, lhs.tobytes()), nontrivial=nred > 1)
           ctx.dist[f'einsum:{sub}:reduce-axis-size={nred}'] += 1
+          if nred > 1 and nred % 2:
+            # an odd reduce axis is outside the domain (only reachable here through the vertical patterns, which the
+            # library evaluates with jnp.einsum): the two-way collectives must reject it loudly
+            try:
+              jnu.sharded_einsum(sub, lhs, jnp.asarray(rhs), gather_inputs=gather, reverse_arg_order=rev,
+                                 precision='float32', mesh=mesh, rhs_spec=rspec, out_spec=ospec)
+              res = 'returned a value'
+            except ValueError as e:
+              res = 'value-error' if 'axis_size must be 1 or even' in str(e) else str(e)[:120]
+            ctx.expect(res == 'value-error', 'odd-axis-not-rejected',
+                       f'sharded_einsum {sub} over an axis of odd size {nred} should raise ValueError: {res}', inp)
+            continue
           with ctx.impl(f'einsum-exception:{sub}', inp):
             out = np.asarray(jnu.sharded_einsum(sub, lhs, jnp.asarray(rhs), gather_inputs=gather,
                                                 reverse_arg_order=rev, precision='float32', mesh=mesh,
@@ -755,8 +895,42 @@ def part_filters(ctx, env, layouts):
       ctx.dist['filters:old-normaliser-would-divide-by-zero'] += int(g.laplacian_eigenvalues[-1] == 0)
 
 
+def part_odd_rejected(ctx, env, meshes):
+  """DOMAIN STATEMENT: a mesh whose x or y axis has an odd size > 1 is outside the domain of the property; the code
+  rejects it loudly (ValueError('axis_size must be 1 or even') from the two-way collectives, Lean:
+  collectives_odd_rejected) instead of computing something else."""
+  jnp, jnu, P = env.jnp, env.jnu, env.P
+  rng = ctx.rng
+  for mk in meshes:
+    g = env.grid(4, mk)
+    xm = rng.standard_normal((2 * mk[0],) + g.modal_shape)
+    xn = rng.standard_normal((2 * mk[0],) + g.nodal_shape)
+    for name, fn, arg in (('to_nodal', g.to_nodal, xm), ('to_modal', g.to_modal, xn)):
+      inp = dict(mesh=mk, op=name, modal_shape=list(g.modal_shape))
+      ctx.case(('odd-mesh', mk, name), nontrivial=True)
+      ctx.dist[f'odd-axis:mesh={mesh_key(mk)}'] += 1
+      res = 'returned a value'
+      try:
+        np.asarray(fn(jnp.asarray(arg)))
+      except ValueError as e:
+        res = 'value-error' if 'axis_size must be 1 or even' in str(e) else f'ValueError: {str(e)[:120]}'
+      except Exception as e:  # pylint: disable=broad-except
+        res = f'{type(e).__name__}: {str(e)[:120]}'
+      ctx.expect(res == 'value-error', 'odd-axis-not-rejected',
+                 f'{name} on mesh {mk} (odd x or y axis) should raise ValueError(axis_size must be 1 or even): {res}', inp)
+    # the longitude derivative needs no collective: it must simply be right on an odd x axis
+    if mk[1] > 1:
+      g0 = env.grid(4)
+      x0 = rng.standard_normal((1,) + g0.modal_shape) * g0.mask
+      with ctx.impl(f'grid-ops-exception:mesh={mesh_key(mk)}', dict(mesh=mk, op='d_dlon')):
+        out = np.asarray(g.d_dlon(jnp.asarray(pad_to(x0, g.modal_shape))))
+        ref = np.asarray(g0.d_dlon(jnp.asarray(x0)))
+        ctx.expect(dinoutil.relerr(crop_to(out, ref.shape[-2:]), ref) <= TOL and pad_mass(out, ref.shape[-2:]) <= TOL,
+                   'diff:d_dlon', f'd_dlon on mesh {mk} differs from unsharded', dict(mesh=mk))
+
+
 def part_time_step(ctx, env, meshes):
-  """one whole IMEX step (moist or dry) with step filters, sharded vs unsharded (thorough tier)."""
+  """one whole IMEX step (moist or dry) with step filters, sharded vs unsharded (one mesh in quick, all in thorough)."""
   jax, jnp, pe, ti = env.jax, env.jnp, env.pe, env.ti
   rng = ctx.rng
   M = 5
@@ -804,19 +978,20 @@ def part_time_step(ctx, env, meshes):
 
 def run(ctx: common.Ctx):
   env = Env(ctx)
-  ctx.lean('DinoProofs.Properties.C07', 'C07.txt',
-           extra_files=['DinoProofs/Lemmas/Shard.lean', 'DinoProofs/Lemmas/ShardPad.lean',
-                        'DinoProofs/Lemmas/ShardBasis.lean', 'Dino/Shard.lean',
-                        'Dino/ShardDrv.lean'])
+  extra = ['DinoProofs/Lemmas/Shard.lean', 'DinoProofs/Lemmas/ShardPad.lean', 'DinoProofs/Lemmas/ShardBasis.lean',
+           'Dino/Shard.lean', 'Dino/ShardDrv.lean']
+  if HAVE_NEW:
+    extra += ['DinoProofs/Lemmas/ShardBlock.lean', 'DinoProofs/Lemmas/ShardEinsum.lean', 'Dino/ShardEinsum.lean']
+  ctx.lean('DinoProofs.Properties.C07', 'C07.txt', extra_files=extra)
   rng = ctx.rng
   meshes = all_meshes()
   multi = [m for m in meshes if sum(v > 1 for v in m) >= 2 and m != (2, 2, 2)]
   single = [m for m in meshes if sum(v > 1 for v in m) <= 1]
   if ctx.quick:
     pick = [multi[i] for i in rng.permutation(len(multi))[:4]]
-    grid_meshes = single + [(2, 2, 2)] + pick
+    grid_meshes = single + [(2, 2, 2)] + pick + MESHES6 + [MESHES_ZODD[ctx.seed % 3]]
   else:
-    grid_meshes = meshes
+    grid_meshes = meshes + MESHES6 + MESHES_ZODD
 
   def toggles_for(mi, mk):
     M = [5, 4, 6][mi % 3]
@@ -838,35 +1013,66 @@ def run(ctx: common.Ctx):
   tlog.append(f'lean={time.time() - ctx.t0:.0f}s')
   timed('trace', part_trace, ctx, env)
   timed('corr', part_corr, ctx, env)
+  timed('einsum-logic', c07_einsum.part_einsum_logic, ctx, env)
   timed('grid', part_grid_ops, ctx, env, grid_meshes, toggles_for)
   # padded layouts without any mesh: base_shape_multiple alone
   timed('grid-nomesh', part_grid_ops, ctx, env, [None], lambda mi, mk: [(5, 4, None, None)] + ([] if ctx.quick else [(4, 3, True, True), (6, 8, False, False)]))
+  odd = MESHES_ODD_XY if not ctx.quick else [MESHES_ODD_XY[(ctx.seed + i) % len(MESHES_ODD_XY)] for i in (0, 3, 6)]
+  timed('odd-axis', part_odd_rejected, ctx, env, odd)
 
   zmeshes = [m for m in meshes if m[0] > 1]
   if ctx.quick:
     keep = [(2, 1, 1), (4, 1, 1), (8, 1, 1), (2, 2, 2)]
     rest = [m for m in zmeshes if m not in keep]
-    pe_meshes = keep + [rest[i] for i in rng.permutation(len(rest))[:2]] + [[(1, 2, 2), (1, 4, 2), (1, 2, 4), (1, 8, 1), (1, 1, 8)][ctx.seed % 5]]
+    six = [MESHES6[(ctx.seed + i) % 5] for i in (0, 2)]
+    pe_meshes = (keep + [rest[i] for i in rng.permutation(len(rest))[:2]]
+                 + [[(1, 2, 2), (1, 4, 2), (1, 2, 4), (1, 8, 1), (1, 1, 8)][ctx.seed % 5]] + six)
   else:
-    pe_meshes = [m for m in meshes if m != (1, 1, 1)]
+    pe_meshes = [m for m in meshes if m != (1, 1, 1)] + MESHES6 + MESHES_ZODD
   timed('primitive', part_primitive, ctx, env, pe_meshes)
 
-  timed('cumsum-einsum', part_cumsum_einsum, ctx, env, [(2, 1, 1), (1, 4, 1), (1, 1, 8), (2, 2, 2)] + ([] if ctx.quick else
-                                 [(8, 1, 1), (4, 2, 1), (1, 8, 1), (1, 2, 4), (1, 1, 2), (1, 2, 1), (4, 1, 2), (1, 1, 1)]))
-  layouts = [((1, 1, 1), None), (None, 4), (None, 3), ((2, 1, 1), None), ((1, 2, 2), None), ((1, 1, 8), None), ((1, 4, 2), 1)]
+  timed('cumsum-einsum', part_cumsum_einsum, ctx, env, [(2, 1, 1), (1, 4, 1), (1, 1, 8), (2, 2, 2)]
+        + ([MESHES6[(ctx.seed + 1) % 5], MESHES6[(ctx.seed + 3) % 5]] if ctx.quick else
+           [(8, 1, 1), (4, 2, 1), (1, 8, 1), (1, 2, 4), (1, 1, 2), (1, 2, 1), (4, 1, 2), (1, 1, 1)] + MESHES6 + [(3, 1, 1)]))
+  layouts = [((1, 1, 1), None), (None, 4), (None, 3), ((2, 1, 1), None), ((1, 2, 2), None), ((1, 1, 8), None), ((1, 4, 2), 1),
+             ((1, 1, 6), None), ((3, 2, 1), 1)]
   if not ctx.quick:
-    layouts += [(m, b) for m in meshes for b in (None, 2)]
+    layouts += [(m, b) for m in meshes + MESHES6 for b in (None, 2)]
   timed('filters', part_filters, ctx, env, layouts)
-  if not ctx.quick:
-    timed('time-step', part_time_step, ctx, env, [m for m in meshes if m != (1, 1, 1)])
+  if ctx.quick:
+    # the whole-step differential on one mesh per run (seed-rotated; one of them uses 6 devices)
+    timed('time-step', part_time_step, ctx, env, [[(2, 2, 2), (3, 2, 1), (1, 2, 2), (2, 1, 2)][ctx.seed % 4]])
+  else:
+    timed('time-step', part_time_step, ctx, env, [m for m in meshes if m != (1, 1, 1)] + MESHES6 + [(3, 1, 1)])
     ctx.leanchecker(['DinoProofs.Properties.C07'])
 
   ctx.notes.append('timing: ' + ' '.join(tlog))
-  ctx.assumptions.append('PARTIAL: XLA SPMD partitioner, shard_map, lax.ppermute/all_gather/psum and '
+  ctx.assumptions.append('PARTIAL: XLA SPMD partitioner, shard_map, lax.ppermute/all_gather/psum, jnp.einsum / jax.eval_shape and '
                          'with_sharding_constraint are executed on 8 virtual CPU devices by the schedule trace and the '
-                         'sharded-vs-unsharded differential, not modelled')
+                         'sharded-vs-unsharded differential, not modelled; the sharded forms of the implicit operators, filters '
+                         'and whole steps have no theorem of their own beyond the scaling lists of T7.8: they are compared with '
+                         'the unsharded computation by the differential (every tier; one whole filtered IMEX step per quick run)')
   ctx.notes.append('domain: PrimitiveEquations with z > 1 needs a level count divisible by z (shard_map in _dot_cumsum '
                    'rejects other counts with ValueError; the model returns none there); Grid.to_nodal/to_modal/d_dlon '
                    'accept any level count through _with_vertical_padding')
-  return ctx.finish(RULE, 'theorems are about the Lean model Dino.Shard; XLA/shard_map/collectives are executed, not '
-                    'modelled; float rounding is outside the theorems (differential tolerance 1e-10, measured 1e-15)')
+  ctx.notes.append('domain: a mesh whose x or y axis has an odd size > 1 (3, 5, 7) is outside the property: to_nodal / to_modal / '
+                   "sharded_einsum raise ValueError('axis_size must be 1 or even') (Lean: collectives_odd_rejected; checked on the "
+                   'real code by part_odd_rejected, key odd-axis-not-rejected); d_dlon needs no collective and is checked to be '
+                   'right there; the vertical axis may have any size (3, 5, 6, 7 are run); meshes covered by the differential: '
+                   'every (z,x,y) with z*x*y in {1,2,4,8} and x, y in {1, even}, the five 6-device meshes (6,1,1) (3,2,1) (3,1,2) '
+                   '(1,6,1) (1,1,6), and (3,1,1) (5,1,1) (7,1,1)')
+  ctx.notes.append('domain: on a layout whose total-wavenumber axis is padded, the raw cos_lat_d_dlat / sec_lat_d_dlat_cos2 (and '
+                   'a second raw derivative or d_dlon applied to them) are NOT pad(unpadded): b[:, -1] = 0 in '
+                   '_derivative_recurrence_weights hits the padded last column, so the first padding column receives the '
+                   '"numerical artifact" of the last resolved wavenumber. Asserted on every padded layout: the deviation is '
+                   'confined to that column, the resolved block equals the unpadded result, and after clip_wavenumbers, to_nodal, '
+                   'to_modal(to_nodal), laplacian, inverse_laplacian, mask the result equals the unpadded one with exactly zero '
+                   'padding (keys diff:* and padding-nonzero:* of the dlat_* consumers); counted under '
+                   'raw-derivative-artifact-in-first-padding-column')
+  ctx.notes.append('domain: _round_to_multiple divides in binary64; the integer model agrees for x < 2^53 (Lean: '
+                   'roundToMultiple_float_agrees; correspondence run up to 2^53 - 1); beyond it the code loses the last bit '
+                   '(_round_to_multiple(2**53 + 1, 1) == 2**53), irrelevant for array shapes')
+  ctx.notes.append('domain: sharded_einsum subscripts are ASCII in the model (the regular expression \\w also accepts non-ASCII '
+                   'word characters, which jnp.einsum rejects later)')
+  return ctx.finish(RULE, 'theorems are about the Lean models Dino.Shard / Dino.ShardEinsum; XLA/shard_map/collectives/jnp.einsum are '
+                    'executed, not modelled; float rounding is outside the theorems (differential tolerance 1e-10, measured 1e-15)')
